@@ -62,7 +62,17 @@ Definition ext_of2 (sha : table) (ent : list (list Z * option string)) : fenv_t 
       Some (fun args => match args with [_; VStr p] => ent_lookup ent p | _ => Exc TypeError end)
     else ext_of sha name.
 
+(* + the logged answers of bip39.random.getrandbits (k -> value) *)
+Fixpoint rng_lookup (t : list (Z * Z)) (k : Z) : R val :=
+  match t with [] => Exc Unmodelled | (a, v) :: r => if (a =? k)%Z then Val (VInt v) else rng_lookup r k end.
+Definition ext_of3 (sha : table) (rng : list (Z * Z)) : fenv_t :=
+  fun name =>
+    if String.eqb name "bip39.random.getrandbits" then
+      Some (fun args => match args with [VInt k] => rng_lookup rng k | _ => Exc TypeError end)
+    else ext_of sha name.
+
 Inductive case :=
+| SemR (sha : list (string * string)) (rng : list (Z * Z)) (f : string) (args : list val) (expected : R val)
 | Sem (sha : list (string * string)) (f : string) (args : list val) (expected : R val)
 | SemE (sha : list (string * string)) (ent : list (list Z * option string)) (f : string) (args : list val) (expected : R val).
 
@@ -74,6 +84,14 @@ Definition check_case (c : case) : Z :=
       match build genv fuel_default asts (ext_of (hextable sha)) f with   (* = fenv_all, by PyAst.build_chain *)
       | Some sem => match sem args with
                     | Exc Unmodelled => 4          (* the semantics refuses to describe this call: outside the fragment, tallied *)
+                    | r => if R_same r expected then 0 else 1
+                    end
+      | None => 1
+      end
+  | SemR sha rng f args expected =>
+      match build genv fuel_default asts (ext_of3 (hextable sha) rng) f with
+      | Some sem => match sem args with
+                    | Exc Unmodelled => 4
                     | r => if R_same r expected then 0 else 1
                     end
       | None => 1
